@@ -55,3 +55,9 @@ _put(["multivariate"], ["__getitem__"], "multi_share_argvals", 2)
 _put(["irregular"], ["__getitem__"], "getitem_irregular:1", 0)
 _put(["irregular"], ["__getitem__"], "getitem_irregular:1.2", 1)
 _put(["irregular"], ["__getitem__"], "getitem_irregular:0.2", 2)
+
+# a user-supplied `points` list: the result sits on the caller's argvals objects
+_put(["multivariate"], ["mean"], "multi_share_argvals", 2)  # without smoothing the `points` list is not used: the mean stays on the grids of the data
+_put(["multivariate"], ["mean"], "multi_on_points", 3)
+_put(["multivariate"], ["smooth"], "multi_on_points", 2)
+_put(["multivariate"], ["covariance"], "multi_covariance_on_points", 1)
